@@ -119,34 +119,34 @@ func faultCoq(f string) string {
 func reqOfPB(r *pb.Request) Req {
 	switch c := r.GetCmd().(type) {
 	case *pb.Request_Prewrite:
-		q := Req{T: "pw", Primary: string(c.Prewrite.GetPrimaryLock()), Start: c.Prewrite.GetStartVersion(), TTL: c.Prewrite.GetLockTtl(), MinC: c.Prewrite.GetMinCommitTs()}
+		q := Req{T: "pw", Primary: string(c.Prewrite.GetPrimaryLock()), Start: U64(c.Prewrite.GetStartVersion()), TTL: U64(c.Prewrite.GetLockTtl()), MinC: U64(c.Prewrite.GetMinCommitTs())}
 		for _, m := range c.Prewrite.GetMutations() {
 			q.Muts = append(q.Muts, Mut{Op: int(m.GetOp()), Key: string(m.GetKey()), Val: string(m.GetValue())})
 		}
 		return q
 	case *pb.Request_Commit:
-		q := Req{T: "cm", Start: c.Commit.GetStartVersion(), Commit: c.Commit.GetCommitVersion()}
+		q := Req{T: "cm", Start: U64(c.Commit.GetStartVersion()), Commit: U64(c.Commit.GetCommitVersion())}
 		for _, k := range c.Commit.GetKeys() {
 			q.Keys = append(q.Keys, string(k))
 		}
 		return q
 	case *pb.Request_BatchRollback:
-		q := Req{T: "rb", Start: c.BatchRollback.GetStartVersion()}
+		q := Req{T: "rb", Start: U64(c.BatchRollback.GetStartVersion())}
 		for _, k := range c.BatchRollback.GetKeys() {
 			q.Keys = append(q.Keys, string(k))
 		}
 		return q
 	case *pb.Request_ResolveLock:
-		q := Req{T: "rs", Start: c.ResolveLock.GetStartVersion(), Commit: c.ResolveLock.GetCommitVersion()}
+		q := Req{T: "rs", Start: U64(c.ResolveLock.GetStartVersion()), Commit: U64(c.ResolveLock.GetCommitVersion())}
 		for _, k := range c.ResolveLock.GetKeys() {
 			q.Keys = append(q.Keys, string(k))
 		}
 		return q
 	case *pb.Request_CheckTxnStatus:
 		x := c.CheckTxnStatus
-		return Req{T: "ck", Primary: string(x.GetPrimaryKey()), Start: x.GetLockTs(), Current: x.GetCurrentTs(), Caller: x.GetCallerStartTs(), RB: x.GetRollbackIfNotExist()}
+		return Req{T: "ck", Primary: string(x.GetPrimaryKey()), Start: U64(x.GetLockTs()), Current: U64(x.GetCurrentTs()), Caller: U64(x.GetCallerStartTs()), RB: x.GetRollbackIfNotExist()}
 	case *pb.Request_Get:
-		return Req{T: "get", Key: string(c.Get.GetKey()), Version: c.Get.GetVersion()}
+		return Req{T: "get", Key: string(c.Get.GetKey()), Version: U64(c.Get.GetVersion())}
 	}
 	panic("client2pc: unexpected request")
 }
